@@ -849,6 +849,8 @@ static union {
     struct c16_oconv oc[CHUNK];
 } s_out;
 
+static uint64_t s_cnt_literal_evals;
+
 static void run_bin64(size_t n) {
     static struct refbin ref[CHUNK];
     for (size_t base = 0; base < n; base += CHUNK) {
@@ -895,6 +897,28 @@ static void run_bin64(size_t n) {
         }
     }
     s_cnt_helper_evals += (uint64_t)n * (NVAR * (2 * (2 * S64_N + M64_N) + 4) + 4);
+    /* literal context: the first LITN operands of the block against every literal of C16_LITS, in both operand positions */
+    {
+        enum { LITN = 64 };
+        static struct c16_o64 lo[2 * LITN];
+        size_t m = n < LITN ? n : LITN;
+        for (int vi = 0; vi < NVAR; ++vi) {
+            const struct c16_variant *v = s_var[vi];
+            for (int k = 0; k < C16_NLIT; ++k) {
+                memset(lo, 0x5A, sizeof(lo));
+                v->lit64[k](s_a, m, lo);
+                for (size_t i = 0; i < m; ++i) {
+                    struct refbin r1, r2;
+                    ref_bin(64, s_a[i], C16_LIT_VALUES[k], &r1);
+                    ref_bin(64, C16_LIT_VALUES[k], s_a[i], &r2);
+                    check64(v, "literal-second-operand", s_a[i], C16_LIT_VALUES[k], &r1, &lo[2 * i]);
+                    check64(v, "literal-first-operand", C16_LIT_VALUES[k], s_a[i], &r2, &lo[2 * i + 1]);
+                }
+            }
+        }
+        s_cnt_literal_evals += (uint64_t)m * NVAR * C16_NLIT * 2 * (2 * S64_N + M64_N);
+        s_cnt_helper_evals += (uint64_t)m * NVAR * C16_NLIT * 2 * (2 * S64_N + M64_N);
+    }
 }
 
 static void run_bin32(size_t n) {
@@ -1335,6 +1359,7 @@ int main(int argc, char **argv) {
         mon_case_end(nontrivial(kind));
     }
     mon_count("helper_evaluations", s_cnt_helper_evals);
+    mon_count("helper_evaluations_with_a_literal_operand", s_cnt_literal_evals);
     mon_count("checked_overflow_out_left_untouched", s_cnt_ovf_untouched);
     mon_count("checked_overflow_out_written", s_cnt_ovf_written);
     return mon_finish();
